@@ -42,6 +42,7 @@ PROPS = {
         "parts": [
             part("v2in", "TestVerif_C02", "similarity-bound", 1600, 16000, shards=(12, 16)),
             part("v2in", "TestVerif_C02_OracleSelfTest", "oracle-selftest", 2000, 20000, shards=(1, 1)),
+            part("v2in", "TestVerif_C02_Lines", "line-attribution", 3000, 60000, shards=(6, 16)),
         ],
     },
     "C03": {
